@@ -97,13 +97,26 @@ func c16bases(thorough bool) []c16base {
 		{src: "var fb = func() string {\n\ttype T struct {\n\t\ty string\n\t}\n\tv := &T{y: \"b\"}\n\treturn fmt.Sprint(v)\n}\n", fmt: true, ordered: true},
 		{src: "var k0 = &K{n: 3}\n", ordered: true},
 	}}
+	// several func init(), one with a local type and another with a variable of that name; result types named like a
+	// parameter or the receiver
+	b6 := c16base{name: "inits", items: []c16item{
+		{src: "type node struct {\n\tv int\n\tnext *node\n}\n"},
+		{src: "type stack struct {\n\titems []int\n}\n"},
+		{src: "func push(node *node, v int) *node {\n\tnode.v += v\n\treturn node\n}\n"},
+		{src: "func (stack *stack) push(v int) *stack {\n\tstack.items = append(stack.items, v)\n\treturn stack\n}\n"},
+		{src: "func Main() {\n\tfmt.Println(table[\"a\"], table[\"b\"], table[\"c\"], table[\"d\"], push(&node{v: 1}, 2).v, len((&stack{}).push(1).push(2).items))\n}\n", fmt: true},
+		{src: "var table = map[string]int{}\n", ordered: true},
+		{src: "func init() {\n\ttype entry struct {\n\t\tkey string\n\t\tn int\n\t}\n\tfor _, e := range []*entry{{key: \"a\", n: 1}, {key: \"b\", n: 2}} {\n\t\ttable[e.key] = e.n\n\t}\n}\n", ordered: true},
+		{src: "func init() {\n\tentry := 7\n\ttable[\"c\"] = entry + 1\n}\n", ordered: true},
+		{src: "func init() {\n\ttype entry struct {\n\t\tweight int\n\t}\n\te := &entry{weight: 40}\n\ttable[\"d\"] = e.weight + len(table)\n}\n", ordered: true},
+	}}
 	if !thorough {
 		// quick: 5 hoistable + 3..4 ordered items per package
 		b1.items = append(append([]c16item{}, b1.items[0], b1.items[1], b1.items[2], b1.items[3], c16item{src: "func mk(n int) *A {\n\treturn &A{b: &B{v: n * 2}, n: n}\n}\n"}, c16item{src: "func Main() {\n\tfmt.Println(s0, a0.b.Get(), K, a0.Sum())\n}\n", fmt: true}), b1.items[7], b1.items[8], b1.items[9], c16item{src: "func init() {\n\ts0 += 100\n}\n", ordered: true})
 		// (all items of the functions package are kept in quick: a parameter named like another top-level function needs them)
 		b3.items = append(append([]c16item{}, b3.items[1], b3.items[3], b3.items[0], b3.items[5], c16item{src: "func Main() {\n\tfmt.Println(total(all), len(all), sum)\n}\n", fmt: true}), c16item{src: "var all = []Shape{&Sq{s: 2}, &Sq{s: 3}}\n", ordered: true}, b3.items[8], c16item{src: "func init() {\n\tall = append(all, &Sq{s: 1})\n}\n", ordered: true})
 	}
-	return []c16base{b1, b2, b3, b4, b5}
+	return []c16base{b1, b2, b3, b4, b5, b6}
 }
 
 // an arrangement: order = permutation of item indexes; files[i] = file of the i-th item in that order
@@ -263,6 +276,7 @@ func c16run(r *report.Run) {
 	defer cache.Save()
 	var goProgs []*oracle.Prog
 	var goWant []string
+	var goArrs []c16arr
 	for bi, b := range bases {
 		if r.Expired() {
 			break
@@ -288,6 +302,7 @@ func c16run(r *report.Run) {
 			}
 			goProgs = append(goProgs, &oracle.Prog{Pkg: pkg, Files: files, Entry: "Main"})
 			goWant = append(goWant, want)
+			goArrs = append(goArrs, a)
 		}
 		addGo(c16arr{Base: bi, Order: canonOrder})
 		var orders [][]int
@@ -361,7 +376,10 @@ func c16run(r *report.Run) {
 		for k, gr := range gres {
 			if gr.BuildErr != "" {
 				r.HarnessError("arrangement rejected by the Go toolchain: %s", gr.BuildErr)
-			} else if gr.Out != goWant[k] || gr.Panicked {
+			} else if gr.Out != goWant[k] && !gr.Panicked {
+				// the oracle of this check is the Go toolchain's output for the arrangement: goatlang disagrees with it
+				r.Fail(&report.Case{Kind: "go", Key: "arrangement " + goProgs[k].Pkg + " (output of the Go toolchain vs goatlang's for the canonical arrangement)\n" + c16show(c16bases(r.Tier == "thorough")[goArrs[k].Base], goArrs[k]), Input: goArrs[k], Want: gr.Out, Got: goWant[k]})
+			} else if gr.Panicked {
 				r.HarnessError("the Go toolchain prints %q for an arrangement of which goatlang's canonical output is %q (%s)", gr.Out, goWant[k], goProgs[k].Pkg)
 			} else {
 				validated++
